@@ -67,7 +67,12 @@ type Job struct {
 	Prop     string         `json:"prop,omitempty"`
 }
 
-func verifDir() string { return "/verif" }
+func verifDir() string {
+	if d := os.Getenv("VERIF_HOME"); d != "" {
+		return d
+	}
+	return "/verif"
+}
 
 // outDir is where evidence and replay files go (VERIF_OUT overrides it for runs against scratch trees).
 func outDir() string {
